@@ -282,9 +282,9 @@ pub fn menu() -> Menu {
 pub fn params_json(p: &TraceParams) -> Value {
     json!({
         "first_ttl": p.first_ttl, "max_ttl": p.max_ttl, "max_inflight": p.max_inflight, "rounds": p.rounds,
-        "min_round_ms": p.min_round.as_millis() as u64, "max_round_ms": p.max_round.as_millis() as u64,
-        "grace_ms": p.grace.as_millis() as u64, "read_timeout_ms": p.read_timeout.as_millis() as u64,
-        "tcp_connect_timeout_ms": p.tcp_connect_timeout.as_millis() as u64,
+        "min_round_ns": p.min_round.as_nanos() as u64, "max_round_ns": p.max_round.as_nanos() as u64,
+        "grace_ns": p.grace.as_nanos() as u64, "read_timeout_ns": p.read_timeout.as_nanos() as u64,
+        "tcp_connect_timeout_ns": p.tcp_connect_timeout.as_nanos() as u64,
         "packet_size": p.packet_size, "tos": p.tos, "pattern": p.pattern,
         "initial_sequence": p.initial_sequence, "trace_id": p.trace_id, "max_flows": p.max_flows, "max_samples": p.max_samples,
     })
@@ -292,17 +292,21 @@ pub fn params_json(p: &TraceParams) -> Value {
 
 pub fn params_from_json(v: &Value) -> TraceParams {
     let u = |k: &str| v[k].as_u64().unwrap_or_else(|| panic!("MACHINERY: replay param {k}"));
-    let ms = |k: &str| std::time::Duration::from_millis(u(k));
+    // durations are stored in nanoseconds (older artefacts: milliseconds)
+    let dur = |k: &str| match v.get(format!("{k}_ns")).and_then(Value::as_u64) {
+        Some(ns) => std::time::Duration::from_nanos(ns),
+        None => std::time::Duration::from_millis(u(&format!("{k}_ms"))),
+    };
     TraceParams {
         first_ttl: u("first_ttl") as u8,
         max_ttl: u("max_ttl") as u8,
         max_inflight: u("max_inflight") as u8,
         rounds: u("rounds") as usize,
-        min_round: ms("min_round_ms"),
-        max_round: ms("max_round_ms"),
-        grace: ms("grace_ms"),
-        read_timeout: ms("read_timeout_ms"),
-        tcp_connect_timeout: ms("tcp_connect_timeout_ms"),
+        min_round: dur("min_round"),
+        max_round: dur("max_round"),
+        grace: dur("grace"),
+        read_timeout: dur("read_timeout"),
+        tcp_connect_timeout: dur("tcp_connect_timeout"),
         packet_size: u("packet_size") as u16,
         tos: u("tos") as u8,
         pattern: u("pattern") as u8,
